@@ -41,6 +41,8 @@ def run(ctx):
         ctx.run_rule("R5-custom-headers", r5_headers, F, table)
         ctx.run_rule("R6-notify", r6_notify, F, table)
         ctx.run_rule("R1-layout", r7_reply_layouts, F)
+        from rules import c04
+        ctx.run_rule("R2-copy-loop", c04.r2_copy_loop, F)       # reply bytes reach guest memory in order (shared with C04)
     finally:
         vf.NOUPD[0] = False
         vf.NOCAST[0] = False
